@@ -37,6 +37,7 @@ func rulesC06(c *Ctx) {
 	c06Round3(c)
 	c06Round4(c, c.P.BuildIndex())
 	pendingFallbackRule(c, "C06.guard")
+	c06Round5(c)
 	c06Borrowed(c)
 	const rule = "C06.guard"
 	api := "storage/mkvs/db/api."
